@@ -1,200 +1,37 @@
 (* Proofs/CallMain.v — the C06 theorems about Call/Model.v. *)
-From Coq Require Import List Bool Arith NArith Permutation.
+From Coq Require Import List Bool Arith NArith.
 Import ListNotations.
 Require Import PV.TypeVar.Base PV.TypeVar.Model PV.TypeVar.Spec PV.Call.Model.
-Require Import PV.Proofs.SolveCall PV.Proofs.CallBind.
+Require Import PV.Binder.Kind PV.Binder.Sig PV.Binder.Bind PV.Binder.PyBind.
+Require Import PV.Proofs.BinderConcrete PV.Proofs.BinderValid.
 
 Section CallMain.
   Context {V : Type} (O : ops V) (limit : nat).
-  Context {Obj : Type} (val : Obj -> V).
-  (* runtime membership of an argument object in a static type (the specification) *)
-  Context (member : Obj -> V -> bool).
 
-  Notation param := (@param V).
-  Notation barg := (@barg Obj).
-
-  Lemma pass2_in : forall sol (b : list (param * barg)) n,
-    In (IncompatibleArgument n) (pass2 O val sol b) <->
-    exists p ba, In (p, ba) b /\ pname p = n /\ arg_fits O val (sub sol (ann p)) ba = false.
+  Lemma actuals_concrete : forall (c : @ccall V), concrete_call c = true -> concrete (actuals_of c).
   Proof.
-    intros sol b n. unfold pass2. rewrite in_flat_map. split.
-    - intros [[p ba] [Hin H]]. destruct (arg_fits O val (sub sol (ann p)) ba) eqn:E; [destruct H|].
-      destruct H as [H|[]]. injection H as <-. exists p, ba. auto.
-    - intros [p [ba [Hin [<- E]]]]. exists (p, ba). split; [exact Hin|]. rewrite E. left. reflexivity.
+    intros c H. unfold concrete_call in H. apply andb_prop in H. destruct H as [H1 H2].
+    unfold concrete, actuals_of; cbn. repeat split.
+    - destruct (a_star c); [discriminate|reflexivity].
+    - destruct (a_starkw c); [discriminate|reflexivity].
+    - induction (a_pos c); cbn; auto.
+    - induction (a_kw c) as [|[n v] l IH]; cbn; auto.
   Qed.
 
-  Lemma pass2_nil : forall sol (b : list (param * barg)),
-    pass2 O val sol b = [] <-> forall p ba, In (p, ba) b -> arg_fits O val (sub sol (ann p)) ba = true.
+  Lemma actuals_kw_names : forall (c : @ccall V), map fst (keywords (actuals_of c)) = map fst (a_kw c).
+  Proof. intros c. cbn. induction (a_kw c) as [|[n v] l IH]; cbn; [reflexivity|]. f_equal. exact IH. Qed.
+
+  (* C05 composed: for a concrete call the model reports a binding failure
+     exactly when CPython cannot bind the call *)
+  Theorem binding_failure_iff_cpython_rejects : forall (s : @csig V) c,
+    valid_sig (sig_of s) = true -> concrete_call c = true -> names_nodup (map fst (a_kw c)) = true ->
+    (cbind s c = None <-> py_bind (sig_of s) (length (a_pos c)) (map fst (a_kw c)) = false).
   Proof.
-    intros sol b. unfold pass2. induction b as [|[p ba] b IH]; cbn; [split; [intros _ ? ? []|reflexivity]|].
-    destruct (arg_fits O val (sub sol (ann p)) ba) eqn:E; cbn.
-    - rewrite IH. split.
-      + intros H q qa [Hq|Hq]; [injection Hq as <- <-; exact E|apply H, Hq].
-      + intros H q qa Hq. apply H. right. exact Hq.
-    - split; [intros HH; discriminate HH|]. intros H. specialize (H p ba (or_introl eq_refl)). congruence.
-  Qed.
-
-  Lemma pass2_only_arguments : forall sol (b : list (param * barg)) d,
-    In d (pass2 O val sol b) -> exists n, d = IncompatibleArgument n.
-  Proof.
-    intros sol b d H. unfold pass2 in H. apply in_flat_map in H. destruct H as [[p ba] [_ H]].
-    destruct (arg_fits O val (sub sol (ann p)) ba); [destruct H|]. destruct H as [<-|[]]. eauto.
-  Qed.
-
-  (* shape of an accepted call *)
-  Theorem check_call_accepted_iff : forall s c,
-    fst (check_call O limit val s c) = [] <->
-    exists b sol, bind s c = Some b /\ pass1_fail O limit val (tdecl s) b = None /\
-      mresolve O limit (flat_map (arg_bounds (tdecl s)) (t_values val b)) = Sol sol /\
-      forall p ba, In (p, ba) b -> arg_fits O val (sub sol (ann p)) ba = true.
-  Proof.
-    intros s c. unfold check_call. destruct (bind s c) as [b|]; cbn.
-    2:{ split; [intros HH; discriminate HH|]. intros [b [sol [H _]]]. discriminate H. }
-    destruct (pass1_fail O limit val (tdecl s) b) as [n|] eqn:Ep; cbn.
-    { split; [intros HH; discriminate HH|]. intros [b' [sol [H1 [H2 _]]]]. injection H1 as <-. congruence. }
-    destruct (mresolve O limit _) as [sol|] eqn:Er; cbn.
-    2:{ split; [intros HH; discriminate HH|]. intros [b' [sol [H1 [_ [H3 _]]]]]. injection H1 as <-. congruence. }
-    rewrite pass2_nil. split.
-    - intros H. exists b, sol. auto.
-    - intros [b' [sol' [H1 [_ [H3 H4]]]]]. injection H1 as <-. assert (sol' = sol) by congruence. subst. exact H4.
-  Qed.
-
-  (* signatures that do not mention the type variable *)
-  Lemma no_vars_t_values : forall (b : list (param * barg)),
-    forallb (fun p => negb (is_var (ann p))) (map fst b) = true -> t_values val b = [].
-  Proof.
-    induction b as [|[p ba] b IH]; cbn; [reflexivity|]. intros H. apply andb_prop in H. destruct H as [H1 H2].
-    destruct (is_var (ann p)); [discriminate|]. cbn. apply IH, H2.
-  Qed.
-
-  Lemma no_vars_pass1 : forall d (b : list (param * barg)),
-    forallb (fun p => negb (is_var (ann p))) (map fst b) = true -> pass1_fail O limit val d b = None.
-  Proof.
-    intros d b H. unfold pass1_fail.
-    assert (Hf : find (fun '(p, ba) => is_var (ann p) &&
-                  negb (forallb (fun o => arg_ok O limit d (val o)) (objs_of ba))) b = None).
-    { induction b as [|[p ba] b IH]; cbn; [reflexivity|]. cbn in H. apply andb_prop in H. destruct H as [H1 H2].
-      destruct (is_var (ann p)); [discriminate|]. cbn. apply IH, H2. }
-    rewrite Hf. reflexivity.
-  Qed.
-
-  Lemma sub_no_var : forall sol sol' (a : @annot V), is_var a = false -> sub sol a = sub sol' a.
-  Proof. intros sol sol' [|t|] H; try reflexivity. discriminate. Qed.
-
-  (* Non-generic signatures: the diagnostics are exactly one incompatible_argument
-     per parameter with an argument its annotation does not accept *)
-  Theorem nongeneric_diagnostics : forall s c b,
-    no_vars s = true -> bind s c = Some b ->
-    forall d, In d (fst (check_call O limit val s c)) <->
-      exists p ba t o, In (p, ba) b /\ d = IncompatibleArgument (pname p) /\
-        ann p = AnnTy t /\ In o (objs_of ba) /\ acc O t (val o) = false.
-  Proof.
-    intros s c b Hnv Hb d. unfold check_call. rewrite Hb.
-    assert (Hps : map fst b = params s) by (eapply bind_go_params; exact Hb).
-    unfold no_vars in Hnv. rewrite <- Hps in Hnv.
-    rewrite (no_vars_pass1 (tdecl s) b Hnv), (no_vars_t_values b Hnv). cbn.
-    split.
-    - intros H. destruct (pass2_only_arguments _ _ _ H) as [n ->].
-      apply pass2_in in H. destruct H as [p [ba [Hin [<- Hf]]]].
-      unfold arg_fits in Hf. destruct (ann p) as [|t|] eqn:Ea; cbn in Hf; try discriminate.
-      + assert (Hex : existsb (fun o => negb (acc O t (val o))) (objs_of ba) = true).
-        { clear -Hf. induction (objs_of ba) as [|o l IH]; cbn in *; [discriminate|].
-          destruct (acc O t (val o)); cbn in *; [apply IH, Hf|reflexivity]. }
-        apply existsb_exists in Hex. destruct Hex as [o [Ho Hn]].
-        exists p, ba, t, o. repeat split; auto. destruct (acc O t (val o)); [discriminate|reflexivity].
-      + exfalso. rewrite forallb_forall in Hnv. specialize (Hnv p).
-        rewrite Ea in Hnv. cbn in Hnv. assert (false = true); [|discriminate].
-        apply Hnv. apply in_map_iff. exists (p, ba). auto.
-    - intros [p [ba [t [o [Hin [-> [Ea [Ho Hacc]]]]]]]]. apply pass2_in. exists p, ba. repeat split; auto.
-      rewrite Ea. cbn. apply not_true_is_false. intros Hall. rewrite forallb_forall in Hall.
-      specialize (Hall o Ho). congruence.
-  Qed.
-
-  Hypothesis acc_member : forall t o, acc O t (val o) = member o t.
-
-  (* diagnosed(call) <=> exists arg: not member(arg, declared(param)) *)
-  Theorem nongeneric_diagnosed_iff_nonmember : forall s c b,
-    no_vars s = true -> bind s c = Some b ->
-    (diagnosed O limit val s c = true <->
-     exists p ba t o, In (p, ba) b /\ ann p = AnnTy t /\ In o (objs_of ba) /\ member o t = false).
-  Proof.
-    intros s c b Hnv Hb. unfold diagnosed. split.
-    - destruct (fst (check_call O limit val s c)) as [|d l] eqn:E; [discriminate|]. intros _.
-      assert (Hd : In d (fst (check_call O limit val s c))) by (rewrite E; left; reflexivity).
-      apply (nongeneric_diagnostics s c b Hnv Hb) in Hd.
-      destruct Hd as [p [ba [t [o [Hin [_ [Ea [Ho Hacc]]]]]]]]. rewrite acc_member in Hacc. eauto 8.
-    - intros [p [ba [t [o [Hin [Ea [Ho Hm]]]]]]].
-      assert (Hd : In (IncompatibleArgument (pname p)) (fst (check_call O limit val s c))).
-      { apply (nongeneric_diagnostics s c b Hnv Hb). exists p, ba, t, o. rewrite acc_member. auto 8. }
-      destruct (fst (check_call O limit val s c)); [destruct Hd|reflexivity].
-  Qed.
-
-  (* generic or not: an accepted call has a solution under which every argument
-     is a member of the substituted parameter type (otherwise an error is reported) *)
-  Theorem accepted_call_arguments_fit : forall s c,
-    diagnosed O limit val s c = false ->
-    exists b sol, bind s c = Some b /\ snd (check_call O limit val s c) = inferred O sol (ret s) /\
-      forall p ba t o, In (p, ba) b -> sub sol (ann p) = Some t -> In o (objs_of ba) -> member o t = true.
-  Proof.
-    intros s c Hd. unfold diagnosed in Hd.
-    destruct (fst (check_call O limit val s c)) eqn:E; [|discriminate].
-    pose proof E as E'. apply check_call_accepted_iff in E. destruct E as [b [sol [Hb [H1 [Hr Hfit]]]]].
-    exists b, sol. split; [exact Hb|]. split.
-    - unfold check_call. rewrite Hb, H1, Hr. reflexivity.
-    - intros p ba t o Hin Hs Ho. specialize (Hfit p ba Hin). unfold arg_fits in Hfit. rewrite Hs in Hfit.
-      rewrite forallb_forall in Hfit. rewrite <- acc_member. apply Hfit, Ho.
-  Qed.
-
-  Hypothesis L : acc_laws O.
-
-  (* with C15: the second pass never reports a parameter annotated with the bare
-     type variable — the solution accepts every such argument *)
-  Theorem solution_accepts_typevar_arguments : forall d (b : list (param * barg)) sol p ba,
-    mresolve O limit (flat_map (arg_bounds d) (t_values val b)) = Sol sol ->
-    In (p, ba) b -> ann p = AnnVar -> arg_fits O val (sub sol (ann p)) ba = true.
-  Proof.
-    intros d b sol p ba Hr Hin Ea. rewrite Ea. cbn. apply forallb_forall. intros o Ho.
-    eapply mresolve_lower; [exact L|exact Hr|].
-    apply in_flat_map. exists (val o). split; [|left; reflexivity].
-    unfold t_values. apply in_flat_map. exists (p, ba). split; [exact Hin|].
-    rewrite Ea. cbn. apply in_map, Ho.
-  Qed.
-
-  (* hence, for a call that binds: accepted <=> every T-argument fits the declaration on its
-     own, the bounds are solvable, and every other argument is a member of its declared type *)
-  Theorem generic_accepted_iff : forall s c b,
-    bind s c = Some b ->
-    (diagnosed O limit val s c = false <->
-     pass1_fail O limit val (tdecl s) b = None /\
-     is_err (mresolve O limit (flat_map (arg_bounds (tdecl s)) (t_values val b))) = false /\
-     forall p ba t o, In (p, ba) b -> ann p = AnnTy t -> In o (objs_of ba) -> member o t = true).
-  Proof.
-    intros s c b Hb. unfold diagnosed. split.
-    - destruct (fst (check_call O limit val s c)) eqn:E; [|discriminate]. intros _.
-      apply check_call_accepted_iff in E. destruct E as [b' [sol [Hb' [H1 [Hr Hfit]]]]].
-      assert (b' = b) by congruence. subst b'. split; [exact H1|]. split; [rewrite Hr; reflexivity|].
-      intros p ba t o Hin Ea Ho. specialize (Hfit p ba Hin). rewrite Ea in Hfit. cbn in Hfit.
-      rewrite forallb_forall in Hfit. rewrite <- acc_member. apply Hfit, Ho.
-    - intros [H1 [Hr Hm]].
-      destruct (mresolve O limit (flat_map (arg_bounds (tdecl s)) (t_values val b))) as [sol|] eqn:Er; [|discriminate].
-      assert (E : fst (check_call O limit val s c) = []).
-      { apply check_call_accepted_iff. exists b, sol. repeat split; auto.
-        intros p ba Hin. destruct (ann p) as [|t|] eqn:Ea.
-        - reflexivity.
-        - cbn. apply forallb_forall. intros o Ho. rewrite acc_member. eapply Hm; eassumption.
-        - rewrite <- Ea. eapply solution_accepts_typevar_arguments; eassumption. }
-      rewrite E. reflexivity.
-  Qed.
-
-  (* the inferred type of `-> T` contains every argument passed for a parameter annotated T *)
-  Theorem identity_result_member : forall s c b p ba o,
-    ret s = AnnVar -> diagnosed O limit val s c = false -> bind s c = Some b ->
-    In (p, ba) b -> ann p = AnnVar -> In o (objs_of ba) ->
-    member o (snd (check_call O limit val s c)) = true.
-  Proof.
-    intros s c b p ba o Hret Hd Hb Hin Ea Ho.
-    destruct (accepted_call_arguments_fit s c Hd) as [b' [sol [Hb' [Hsnd Hfit]]]].
-    assert (b' = b) by congruence. subst b'. rewrite Hsnd, Hret. cbn.
-    eapply Hfit; [exact Hin| |exact Ho]. rewrite Ea. reflexivity.
+    intros s c Hv Hc Hn.
+    pose proof (bind_concrete_iff_pybind (sig_of s) (actuals_of c) Hv (actuals_concrete c Hc)) as H.
+    rewrite actuals_kw_names in H. specialize (H Hn).
+    assert (Hl : length (positionals (actuals_of c)) = length (a_pos c)) by (cbn; apply map_length).
+    rewrite Hl in H. rewrite <- H. unfold accepts, cbind.
+    destruct (bind (sig_of s) (actuals_of c)); split; intros; congruence.
   Qed.
 End CallMain.
